@@ -35,6 +35,32 @@ contract(R + "Context.__contains__", props=P, params={"self": "ref:Context", "at
                                 "same-stack": "_seq is self._stack"})],
          ensures={"visible-iff-some-open-scope-has-it": "result == ctx_has(self, attr)"})
 
+# -- assignment: always into the innermost scope, never into an outer one -------------------------------------------
+contract("abs:Context._emit_warning", trusted=True, params={"self": "ref:Context"}, pos_params=["self", "attr", "params"], pure=True,
+         doc="warnings.warn of the masking message (A-lib)")
+contract("abs:dict.get.record", trusted=True, pos_params=["self", "key", "default"], pure=True, result="tuple:any",
+         ensures={"a-four-tuple": "len(result) == 4"}, doc="self._record.get(attr, UNKNOWN_RECORD) (A-lib)")
+contract("lib:traceback.extract_stack", trusted=True, pos_params=[], kwarg="kw", pure=True, result="seq:any",
+         ensures={"at-least-the-caller": "len(result) >= 1"}, doc="traceback.extract_stack(limit=n) (A-lib)")
+contract(R + "Context.__setattr__", props=P, params={"self": "ref:Context", "attr": "str", "value": "any"}, self_classes=["Context"],
+         requires=dict(PUBLIC, **{"a-scope-is-open": "len(self._stack) >= 1",
+                                  "bookkeeping-dictionaries-are-not-scopes":
+                                  "forall(lambda k: implies(0 <= k < len(self._stack), self._record is not self._stack[k] and "
+                                  "self._origin is not self._stack[k])) and self._record is not self._origin",
+                                  "every-scope-is-a-dictionary-of-its-own (each _push creates one)":
+                                  "forall(lambda k: implies(1 <= k < len(self._stack), self._stack[k] is not self._stack[0]))"}),
+         callsites={"self._emit_warning": "abs:Context._emit_warning", "self._record.get": "abs:dict.get.record",
+                    "traceback.extract_stack": "lib:traceback.extract_stack"},
+         globals={"six.PY2": False},
+         modifies=["dict(self._stack[0])", "dict(self._record)", "dict(self._origin)"],
+         loops=[Loop(invariant={"still-a-scope-open": "len(self._stack) >= 1"}, modifies=[])],
+         ensures={"stored-in-the-current-scope": "has_key(self._stack[0], attr) and dict_value(self._stack[0], attr) == value",
+                  "other-names-of-the-current-scope-kept":
+                  "forall_val(lambda a: implies(a != attr, has_key(self._stack[0], a) == old(has_key(self._stack[0], a)) and "
+                  "dict_value(self._stack[0], a) == old(dict_value(self._stack[0], a))))",
+                  "scope-stack-kept": "len(self._stack) == old(len(self._stack)) and "
+                                      "forall(lambda k: implies(0 <= k < len(self._stack), self._stack[k] is old(self._stack[k])))"})
+
 # -- scopes open and close -----------------------------------------------------------------------------------
 contract(R + "Context._push", props=P, params={"self": "ref:Context", "layer": "opt:str"}, self_classes=["Context"],
          modifies=["list(self._stack)"],
@@ -233,15 +259,18 @@ contract(FX + "_setup_fixture", props=P, params={"fixture_func": "any", "context
 prop("C13", level="proof", bounded=[],
      explanation="proved on the real Context methods: attribute lookup returns the value of the innermost open scope that has "
                  "the key and raises AttributeError iff none has it; `in` likewise; deletion removes the key from the current "
-                 "scope only (outer scopes outside the frame) and raises if it is not set there; _push adds a fresh scope "
+                 "scope only (outer scopes outside the frame) and raises if it is not set there; assignment of a public name stores "
+                 "the value in the current scope only, keeps its other names and the scope stack, and alters no outer scope (the "
+                 "masking loop over the outer scopes writes nothing: per-iteration frame), so an outer layer's value is visible "
+                 "again after the inner scope is popped; _push adds a fresh scope "
                  "holding only its bookkeeping keys and keeps the outer scopes in order; _pop removes exactly the innermost "
                  "scope on normal AND exceptional exit of the cleanups; _do_cleanups calls every registered function exactly "
                  "once in reverse registration order even when some raise, and raises iff one raised (and failing is on); "
                  "add_cleanup appends to the list of the target scope -- the current one, or with layer= the innermost scope of that "
                  "name (LookupError if there is none) -- unless already registered there, and changes no other scope's list; layer lookup finds the innermost "
                  "scope of that name. Scope balance of every run method and 'raising cleanup fails the element and the run' "
-                 "are proved over the abstract Context in the run-method contracts. Bounded: __setattr__ (stack inspection, "
-                 "warnings), use_fixture's composition of fixtures, execute_steps, whole operation histories; _setup_fixture "
+                 "are proved over the abstract Context in the run-method contracts. Bounded: the text of masking warnings and "
+                 "private ('_x') names of __setattr__, use_fixture's composition of fixtures, execute_steps, whole operation histories; _setup_fixture "
                  "registers the teardown part of a generator fixture before its setup part runs (also when the setup part raises)",
      technique="contract-based deductive verification (own VC generator over the real ASTs, z3/cvc5) of the Context methods "
                "and of scope balance in the run methods; bounded model-based histories for the rest",
